@@ -269,6 +269,7 @@ SPEC_NS = {
     "implies": lambda a, b: (not a) or b,
     "iff": lambda a, b: bool(a) == bool(b),
     "isnan": lambda x: bool(np.isnan(x)),
+    "isfinite": lambda x: bool(np.isfinite(x)),
     "INF": math.inf, "NAN": math.nan, "np": np,
     "len": len, "range": range, "all": all, "any": any, "abs": abs,
     "min": min, "max": max, "int": int, "float": float, "sum": sum,
@@ -388,8 +389,17 @@ def main():
             result = target(**args)
         if con.generator:
             result = next(result)
+    except HarnessLimit as ex:
+        print(f"replay harness limit: {ex}")
+        return 3
     except Exception as ex:
         name = type(ex).__name__
+        tb = traceback.extract_tb(ex.__traceback__)
+        if "Stub" in str(ex) or (tb and tb[-1].filename.endswith(
+                os.path.join("replay", "run.py"))):
+            print(f"replay harness limit: {name}: {ex}")
+            traceback.print_exc(limit=6, file=sys.stdout)
+            return 3
         allowed = dict(con.raises)
         allowed.update(con.extra.get("may_raise", {}))
         if name in allowed:
@@ -420,43 +430,74 @@ def main():
     return 0
 
 
+def _walk_objects(env):
+    seen, out, stack = set(), [], list(env.values())
+    while stack:
+        o = stack.pop()
+        if id(o) in seen or not hasattr(o, "__dict__") or callable(o):
+            continue
+        seen.add(id(o))
+        out.append(o)
+        stack.extend(o.__dict__.values())
+    return out
+
+
+def _callee_contract(callee):
+    c = C.BY_QUAL.get(callee)
+    if c is not None:
+        return c
+    cls, _, meth = callee.partition(".")
+    sh = C.SHAPES.get(cls)
+    if sh is not None and meth in sh.methods:
+        return sh.methods[meth]
+    return None
+
+
 def install_stubs(env, con, calls):
     """Replace modular callees by scripted stubs returning what the solver
-    chose (in call order per callee)."""
+    chose for them (in call order per callee), so that the real body of the
+    function under test runs on the solver's path."""
     by_callee = {}
     for c in calls:
         by_callee.setdefault(c["callee"], []).append(c)
-    slf = env.get("self")
+    objs = _walk_objects(env)
     for callee, lst in by_callee.items():
-        ccon = C.BY_QUAL.get(callee)
-        if ccon is None or slf is None:
+        ccon = _callee_contract(callee)
+        if ccon is None or "." not in callee:
             continue
-        parts = callee.split(".")
-        name = parts[-1]
+        cls, _, name = callee.partition(".")
+        targets = [o for o in objs
+                   if o.__dict__.get("_shape") == cls
+                   or cls in [k.__name__ for k in type(o).__mro__]]
         it = iter(lst)
+        for tgt in targets:
+            def stub(*a, __it=it, __ccon=ccon, __tgt=tgt, **k):
+                try:
+                    c = next(__it)
+                except StopIteration:
+                    raise HarnessLimit("more calls than on the solver path")
+                for path, v in (c.get("post") or {}).items():
+                    pp = path.split(".")
+                    if pp[0] != "self":
+                        continue
+                    o = __tgt
+                    for q in pp[1:-1]:
+                        o = getattr(o, q)
+                    sh = C.SHAPES.get(o.__dict__.get("_shape") or
+                                      type(o).__name__)
+                    ty = sh.attrs.get(pp[-1]) if sh else None
+                    if ty is not None:
+                        o.__dict__[pp[-1]] = build(ty, v)
+                r = build(__ccon.returns, c["result"]) \
+                    if __ccon.returns else None
+                if __ccon.generator:
+                    return iter([r])
+                return r
+            tgt.__dict__[name] = stub
 
-        def stub(*a, __it=it, __ccon=ccon, **k):
-            c = next(__it)
-            for path, v in (c.get("post") or {}).items():
-                pp = path.split(".")
-                if pp[0] != "self":
-                    continue
-                o = slf
-                for q in pp[1:-1]:
-                    o = getattr(o, q)
-                sh = C.SHAPES.get(getattr(o, "_shape", None) or
-                                  type(o).__name__)
-                ty = sh.attrs.get(pp[-1]) if sh else None
-                if ty is not None:
-                    o.__dict__[pp[-1]] = build(ty, v)
-            r = build(__ccon.returns, c["result"]) if __ccon.returns else None
-            if __ccon.generator:
-                return iter([r])
-            return r
-        try:
-            slf.__dict__[name] = stub
-        except Exception:
-            pass
+
+class HarnessLimit(Exception):
+    pass
 
 
 if __name__ == "__main__":
